@@ -119,9 +119,9 @@ def check_single(case):
 def components(tier, disabled):
     q = tier == "quick"
     return {
-        "sound": {"strategy": semantic_program(profile="modelled", disabled=disabled, focus=["Fee", "Fee", "RekeyTo", "GroupSize"], mode="lsig"),
+        "sound": {"strategy": semantic_program(profile="modelled", disabled=disabled, max_stmts=(12 if q else 18), focus=["Fee", "Fee", "RekeyTo", "GroupSize"], mode="lsig"),
                   "check": check_sound, "examples": 2500 if q else 120000, "sample": lambda c, i: RCFG(c).text},
-        "structural": {"strategy": semantic_program(profile="direct", disabled=disabled, focus=["Fee"], mode="lsig"),
+        "structural": {"strategy": semantic_program(profile="direct", disabled=disabled, max_stmts=(12 if q else 18), focus=["Fee"], mode="lsig"),
                        "check": check_structural, "examples": 2000 if q else 100000, "sample": lambda c, i: RCFG(c).text},
         "single": {"enumerate": _single_cases, "check": check_single, "exhaustive": True, "shards": 16,
                    "sample": lambda c, i: c["desc"]},
